@@ -158,6 +158,10 @@ func (h *hand) checkActionTable(gs *pf.GameState) {
 	if hasAct(p, "raise") && (cw == 0 || !(total > cw)) {
 		bad("raise-in-opposite-situation", "")
 	}
+	// facing a wager, raise is for seats that hold more than the minimum raise (the whole stack is "allin")
+	if hasAct(p, "raise") && faces && !(total > cw+gs.Status.PreviousRaiseSize) {
+		bad("raise-in-opposite-situation", "holds no more than the minimum raise")
+	}
 }
 
 // C14 at one state
